@@ -511,6 +511,13 @@ SPEC = {
     "explanation": "Oracle per turn: for an LLM-generated message the output rails invoked are exactly 1..k+1 in order on the (progressively rewritten) text; the reply is the final text, or the refusal / rail "
                    "exception of the rejecting rail, and never contains a rejected text; this must hold in every turn whatever the earlier turns' verdicts were.",
     "conditions": [
+        {"fn": "checked_v1_state", "tiers": ("quick", "thorough"), "slices": [{"n": 1, "exc": 0, "ver": "1.0", "turns": 2, "fix": {"o0": o, "t0": t, "o1": 0, "t1": t1, "a0": a}} for o in (0, 1) for t in (0, 1) for t1 in (0, 1) for a in (0, 1)
+                    if (a == 0 or (o == 0 and t == 1)) and not (t1 == 0 and o == 0)], "tcond": 900, "tpath": 120,
+         "bound": "v1, 2 calls continued through `state`, output rails disabled by options in the first call or not",
+         "smoke": [{"slice": {"n": 1, "exc": 0, "ver": "1.0", "turns": 2}, "args": dict(o0=1, t0=0, a0=0, o1=0, t1=1, b0=1)}]},
+        {"fn": "checked_v2_events", "tiers": ("quick", "thorough"), "slices": [{"n": 1, "exc": 0, "ver": "2.x", "turns": 2, "v2prog": "events", "fix": {"k0": k, "i0": i, "k1": k1}} for k in (0, 1) for i in (0, 1) for k1 in (0, 1) if not (k == 1 and i == 1)],
+         "tcond": 900, "tpath": 180, "bound": "v2 with input and output rails, user- and event-triggered bot messages, 2 turns",
+         "smoke": [{"slice": {"n": 1, "exc": 0, "ver": "2.x", "turns": 3, "v2prog": "events"}, "args": dict(k0=0, i0=1, a0=0, k1=1, i1=0, b0=1, k2=0, i2=0, c0=0)}]},
         {"fn": "checked_v1", "tiers": ("quick",), "slices": [{"n": 1, "exc": e, "ver": "1.0", "turns": 2, "fix": {"t0": t, "a0": a, "t1": t1}} for e in (0, 1) for t in (0, 1) for a in (0, 1, 2) for t1 in (0, 1) if not (t == 0 and a > 0) and not (e == 1 and not (t == 1 and a == 1)) and not (t1 == 0 and not (t == 1 and a == 1))],
          "tcond": 900, "tpath": 120, "bound": "v1, 1 rail, 2 turns",
          "smoke": [{"slice": {"n": 2, "exc": 0, "ver": "1.0", "turns": 3}, "args": dict(t0=1, a0=1, a1=0, t1=0, b0=0, b1=0, t2=1, c0=2, c1=1)},
@@ -522,13 +529,6 @@ SPEC = {
          "tcond": 900, "tpath": 120, "bound": "v1, shipped `self check output` flow (action stubbed), 2 LLM-generated turns"},
         {"fn": "checked_v2", "tiers": ("quick", "thorough"), "slices": [{"n": 1, "exc": e, "ver": "2.x", "turns": 2, "shipped": 1, "fix": {"a0": a}} for e in (0, 1) for a in (0, 1)],
          "tcond": 900, "tpath": 180, "bound": "v2, shipped `self check output` flow (action stubbed), 2 turns"},
-        {"fn": "checked_v1_state", "tiers": ("quick", "thorough"), "slices": [{"n": 1, "exc": 0, "ver": "1.0", "turns": 2, "fix": {"o0": o, "t0": t, "o1": 0, "t1": t1, "a0": a}} for o in (0, 1) for t in (0, 1) for t1 in (0, 1) for a in (0, 1)
-                    if (a == 0 or (o == 0 and t == 1)) and not (t1 == 0 and o == 0)], "tcond": 900, "tpath": 120,
-         "bound": "v1, 2 calls continued through `state`, output rails disabled by options in the first call or not",
-         "smoke": [{"slice": {"n": 1, "exc": 0, "ver": "1.0", "turns": 2}, "args": dict(o0=1, t0=0, a0=0, o1=0, t1=1, b0=1)}]},
-        {"fn": "checked_v2_events", "tiers": ("quick", "thorough"), "slices": [{"n": 1, "exc": 0, "ver": "2.x", "turns": 2, "v2prog": "events", "fix": {"k0": k, "i0": i, "k1": k1}} for k in (0, 1) for i in (0, 1) for k1 in (0, 1) if not (k == 1 and i == 1)],
-         "tcond": 900, "tpath": 180, "bound": "v2 with input and output rails, user- and event-triggered bot messages, 2 turns",
-         "smoke": [{"slice": {"n": 1, "exc": 0, "ver": "2.x", "turns": 3, "v2prog": "events"}, "args": dict(k0=0, i0=1, a0=0, k1=1, i1=0, b0=1, k2=0, i2=0, c0=0)}]},
         {"fn": "checked_v2", "tiers": ("quick",), "slices": [{"n": 1, "exc": 0, "ver": "2.x", "turns": 2, "fix": {"a0": a}} for a in (0, 1)], "tcond": 900, "tpath": 180, "bound": "v2, 1 rail, 2 turns",
          "smoke": [{"slice": {"n": 1, "exc": 0, "ver": "2.x", "turns": 3}, "args": dict(a0=1, a1=0, b0=0, b1=0, c0=1, c1=0)},
                    {"slice": {"n": 2, "exc": 1, "ver": "2.x", "turns": 2}, "args": dict(a0=0, a1=1, b0=0, b1=0, c0=0, c1=0)}]},
